@@ -51,9 +51,28 @@ def replay_manager(pid, tier, states):
     return n, bad, sel
 
 
+ENGINE_PROPS = {"C01", "C02", "C07", "C13", "C14"}
+
+
+def engine_models(pid, tier):
+    """MC_Engine: the engine (resume index, skip-present, merge wipes, purge, calculate_index)
+    driven by every interleaving of appends and maintenance calls over real indicator kinds"""
+    q = tier == "quick"
+    cfg = "MC_Engine_quick.cfg" if q else "MC_Engine_mid.cfg"
+    consts = ("TF=3, MaxLen=3, MaxOps=%d; menu EMA_2/SMA_2/ATR_2/RSI_2/STOCH_2/OBV in 6 pairs; timeframe none / 3 / "
+              "3+fill; alphabet {rising, falling-with-gap, flat zero-volume}; gaps {1,2}" % (1 if q else 2))
+    stats = [mc.run_model("MC_Engine", "MC_Engine", cfg, consts, timeout=3000)]
+    if pid == "C01":
+        stats.append(mc.run_model("MC_Engine+merge_keeps_readings (must fail)", "MC_Engine", "MC_Engine_dev.cfg",
+                                  consts + ", Dev={merge_keeps_readings}", expect_violation="C01_IncEqBatch"))
+    return stats
+
+
 def run(pid, tier, seed, rng, t0):
     scs = families.scenarios(pid, tier, rng)
     mc_stats, extra, rc_replay = [], {}, 0
+    if pid in ENGINE_PROPS:
+        mc_stats = engine_models(pid, tier)
     if pid in MGR_PROPS:
         mc_stats, states = manager_models(pid, tier)
         n, bad, sel = replay_manager(pid, tier, states)
